@@ -6,12 +6,15 @@
     level loop (C01/06/17) `LevelLoop.wfb t = true`   (decidable)
     marker stage (C08)     `Markers.TreeWF t`, `Markers.Populated t`
 
-  Result: `WF t` + "the taxonomy has a node" (`HasNode t`) implies all of them;
-  `HasNode` is NECESSARY for `wfb` (`hasNode_of_wfb`) and is NOT implied by the
-  validator (`emptyTree`: accepted by `validate`, refused by `wfb`; the level
-  loop raises "Not sure how to proceed" on it as soon as there is a cell).
+  Result: acceptance by the validator (+ the modelling convention `DictOK t`,
+  Python dict keys) implies all of them: `wfb_of_validate`, `treeWF_of_WF`,
+  `populated_of_WF`.  `HasNode t` ("a node at the top level") and
+  `hierarchy.Nodup` used to be extra hypotheses — the validator accepted the
+  node-less taxonomy and a hierarchy listing a level twice; both were findings
+  of this bridge and are now refused (`fix:` 6649211, 799c7a6;
+  `RawTree.hasNode_of_validate`, `RawTree.hierarchy_nodup_of_validate`).
   The converse `wfb → validate` holds with exactly the facts `wfb` does not
-  look at (`validate_of_wfb`).
+  look at (`validate_of_wfb`, `WF_iff_wfb`).
 
   LevelLoop has no child/parent functions of its own: it calls the tree
   model's `children` / `childToParent` (through `kidsD`); the glue lemmas below
@@ -28,9 +31,6 @@ open CTM CTM.RawTree
 validated tree this is equivalent to "some level is not empty", and to "every
 level is not empty".) -/
 def HasNode (t : RawTree) : Prop := ∀ l0, t.hierarchy.head? = some l0 → t.nodesAt l0 ≠ []
-
-/-- accepted by the validator, but without any node -/
-def emptyTree : RawTree := { hierarchy := [0], levels := [(0, [])] }
 
 /-! ### adjacent levels: the two `levelPairs` -/
 
@@ -121,8 +121,9 @@ theorem mem_kidsD_iff_childToParent {t : RawTree} (w : WF t) {pl cl : Level}
 
 /-! ### `WF` ⇒ `wfb` -/
 
-/-- **The validator's acceptance implies the level loop's well-formedness**, for
-every taxonomy with at least one node. -/
+/-- The validator's acceptance implies the level loop's well-formedness.  (The
+argument `hnode` is a consequence of `w.valid` since `fix:` 6649211 — use
+`WF_wfb`; the two-argument form is kept because `Props/C04/Enum.lean` calls it.) -/
 theorem wfb_of_WF {t : RawTree} (w : WF t) (hnode : HasNode t) : LevelLoop.wfb t = true := by
   have s := strict_of_validate w.valid
   simp only [LevelLoop.wfb, Bool.and_eq_true, Bool.not_eq_true', List.all_eq_true]
@@ -171,45 +172,25 @@ theorem hasNode_of_wfb {t : RawTree} (h : LevelLoop.wfb t = true) : HasNode t :=
   intro l0 h0
   exact LevelLoop.wfb_nodesAt_nonempty h (List.mem_of_mem_head? h0)
 
-/-- ... the node-less taxonomy is refused by `wfb`; it WAS accepted by
-`validate_taxonomy_tree` until `fix:` 6649211 (this discrepancy was the
-finding), and is now refused by the validator as well (`.noNodes`), so that
-`HasNode` follows from acceptance: `hasNode_of_valid` below. -/
-theorem emptyTree_discrepancy :
-    emptyTree.validate = .error .noNodes ∧ ¬ HasNode emptyTree ∧
-      LevelLoop.wfb emptyTree = false := by
-  refine ⟨by rfl, ?_, by decide⟩
-  intro h
-  exact h 0 rfl rfl
-
 /-- since `fix:` 6649211 the validator gives `HasNode`
 (`RawTree.hasNode_of_validate`, CTM/Lemmas/TreeValidate.lean) -/
 theorem hasNode_of_valid {t : RawTree} (hv : t.validate = .ok ()) : HasNode t :=
   RawTree.hasNode_of_validate hv
 
-/-- on a `WF` tree, one node anywhere in the hierarchy gives `HasNode` -/
-theorem hasNode_of_mem {t : RawTree} (w : WF t) {l : Level} (hl : l ∈ t.hierarchy) {n : Node}
-    (hn : n ∈ t.nodesAt l) : HasNode t := by
-  have s := strict_of_validate w.valid
-  intro l0 h0 he
-  obtain ⟨i, hi, rfl⟩ := List.mem_iff_getElem.1 hl
-  have h00 : t.hierarchy[0]'(by omega) = l0 := by
-    have : t.hierarchy.head? = some (t.hierarchy[0]'(by omega)) := by
-      rw [List.head?_eq_getElem?]; exact List.getElem?_eq_getElem _
-    rw [this] at h0; exact Option.some.inj h0
-  -- climb from level i to level 0
-  have key : ∀ j (hj : j < t.hierarchy.length), (∃ m, m ∈ t.nodesAt t.hierarchy[j]) →
-      ∃ m, m ∈ t.nodesAt (t.hierarchy[0]'(by omega)) := by
-    intro j
-    induction j with
-    | zero => intro _ h; exact h
-    | succ j ih =>
-      intro hj ⟨m, hm⟩
-      obtain ⟨p, cs, hp, _⟩ := s.hasParent _ _ (mem_levelPairs_of_idx (h := t.hierarchy) hj) m hm
-      exact ih (by omega) ⟨p, mem_nodesAt.2 ⟨cs, hp⟩⟩
-  obtain ⟨m, hm⟩ := key i hi ⟨n, hn⟩
-  rw [h00, he] at hm
-  cases hm
+/-- **the validator's acceptance implies the level loop's well-formedness**
+(`WF` = acceptance + dict-key uniqueness, `RawTree.WF.of_validate`) -/
+theorem WF_wfb {t : RawTree} (w : WF t) : LevelLoop.wfb t = true :=
+  wfb_of_WF w (hasNode_of_valid w.valid)
+
+/-- contrapositive: what `wfb` refuses, the validator refuses -/
+theorem rejected_of_not_wfb {t : RawTree} (d : DictOK t) (h : LevelLoop.wfb t = false) :
+    ∃ e, t.validate = .error e := by
+  cases hv : t.validate with
+  | error e => exact ⟨e, rfl⟩
+  | ok u =>
+    cases u
+    have := WF_wfb (WF.of_validate hv d)
+    rw [h] at this; cases this
 
 /-! ### `wfb` ⇒ `validate`, with exactly what `wfb` does not look at -/
 
@@ -270,22 +251,21 @@ theorem validate_of_wfb {t : RawTree} (h : LevelLoop.wfb t = true) (d : DictOK t
     rw [LevelLoop.kidsD_of_mem_level (d.nodesAt_nodup pl) hp] at this
     exact this
 
-/-- `WF` and `wfb` side by side: for a taxonomy with a node they differ exactly
-by the facts listed at `validate_of_wfb` -/
+/-- `WF` and `wfb` side by side: they differ exactly by the facts listed at
+`validate_of_wfb` -/
 theorem WF_iff_wfb {t : RawTree} (d : DictOK t) (hne : t.hierarchy ≠ []) :
-    (WF t ∧ HasNode t) ↔
+    WF t ↔
       (LevelLoop.wfb t = true ∧ t.hasHierarchy = true ∧ t.nodesAreStr = true ∧
         (∀ k, k ∈ t.levels.map (·.1) → k ∈ t.hierarchy) ∧
         (∀ pl cl, (pl, cl) ∈ RawTree.levelPairs t.hierarchy →
           ∀ p cs, (p, cs) ∈ t.level pl → cs.Nodup) ∧
         t.allRows.Nodup) := by
   constructor
-  · rintro ⟨w, hn⟩
+  · intro w
     have s := strict_of_validate w.valid
-    exact ⟨wfb_of_WF w hn, s.hasH, s.str, s.keysSub, s.childNodup, s.rowsNodup⟩
+    exact ⟨WF_wfb w, s.hasH, s.str, s.keysSub, s.childNodup, s.rowsNodup⟩
   · rintro ⟨h, hasH, str, keysSub, childNodup, rows⟩
-    exact ⟨⟨validate_of_wfb h d hne hasH str keysSub childNodup rows,
-      LevelLoop.wfb_nodup_hierarchy h, hne, d⟩, hasNode_of_wfb h⟩
+    exact WF.of_validate (validate_of_wfb h d hne hasH str keysSub childNodup rows) d
 
 /-! ### `WF` ⇒ the marker stage's hypotheses -/
 
@@ -294,9 +274,10 @@ theorem treeWF_of_WF {t : RawTree} (w : WF t) : Markers.TreeWF t :=
   Markers.treeWF_of_validate t w.valid w.hNodup w.hNe (fun l _ => w.dict.nodesAt_nodup l)
 
 /-- the marker model's `Populated` ("every parent has at least one child"):
-the validator's no-childless-parent test, plus a node at the top for the root -/
-theorem populated_of_WF {t : RawTree} (w : WF t) (hnode : HasNode t) : Markers.Populated t := by
+the validator's no-childless-parent test, and its no-nodes test for the root -/
+theorem populated_of_WF {t : RawTree} (w : WF t) : Markers.Populated t := by
   have s := strict_of_validate w.valid
+  have hnode := hasNode_of_valid w.valid
   intro p hp ch hch
   have hch' : t.children p = .ok ch := by
     unfold Markers.childrenOf at hch
@@ -314,22 +295,13 @@ theorem populated_of_WF {t : RawTree} (w : WF t) (hnode : HasNode t) : Markers.P
     obtain ⟨cl, hpc⟩ := exists_levelPair_of_mem_dropLast hl
     exact List.length_pos_iff.2 (s.childNe l cl hpc n _ (mem_level_entry hn))
 
-/-- flattening keeps `HasNode` (the leaf level of a `WF` tree with a node has a node) -/
-theorem hasNode_flatten {t : RawTree} (w : WF t) (hnode : HasNode t) : HasNode t.flatten :=
-  hasNode_of_wfb (LevelLoop.wfb_flatten (wfb_of_WF w hnode) (ll := t.hierarchy.getLast w.hNe)
-    (by simp [RawTree.leafLevel, List.getLast?_eq_some_getLast w.hNe]))
-
 /-! ### from the validator's verdict itself -/
 
-/-- `validate t = .ok ()` + distinct level names + dict-key uniqueness is `WF`
-(the hierarchy of an accepted tree is non-empty) -/
-theorem WF_of_validate {t : RawTree} (hv : t.validate = .ok ()) (hN : t.hierarchy.Nodup)
-    (d : DictOK t) : WF t :=
-  ⟨hv, hN, hierarchy_ne_nil_of_validate hv, d⟩
-
-theorem wfb_of_validate {t : RawTree} (hv : t.validate = .ok ()) (hN : t.hierarchy.Nodup)
-    (d : DictOK t) (hnode : HasNode t) : LevelLoop.wfb t = true :=
-  wfb_of_WF (WF_of_validate hv hN d) hnode
+/-- acceptance + dict-key uniqueness gives the level loop's `wfb`
+(`RawTree.WF.of_validate` gives `WF`) -/
+theorem wfb_of_validate {t : RawTree} (hv : t.validate = .ok ()) (d : DictOK t) :
+    LevelLoop.wfb t = true :=
+  WF_wfb (WF.of_validate hv d)
 
 /-! ### the tree of the run (`runTree`: `drop_level` / `flatten`) stays well formed -/
 
@@ -448,9 +420,8 @@ theorem isPath_of_rootToLeaf {t : RawTree} (w : WF t) {es : List (Level × Level
 
 /-! ### the example taxonomy of the C01/C06/C17 non-vacuity examples is validator-accepted -/
 
-theorem exTree_accepted : LevelLoop.exTree.validate = .ok () ∧ LevelLoop.exTree.hierarchy.Nodup ∧
-    DictOK LevelLoop.exTree ∧ HasNode LevelLoop.exTree :=
-  ⟨by rfl, by decide, dictOK_of_b (by decide), hasNode_of_wfb LevelLoop.exTree_wf⟩
+theorem exTree_accepted : LevelLoop.exTree.validate = .ok () ∧ DictOK LevelLoop.exTree :=
+  ⟨by rfl, dictOK_of_b (by decide)⟩
 
 /-! ### trees equal up to the order of dict keys / child lists give the same mapping
 
@@ -637,20 +608,22 @@ theorem mapPipeline_equiv {κ} {t₁ t₂ : RawTree} {vote : LevelLoop.Oracle κ
       hv₂ hlen hnd hproc hcs horder,
     mkRecord_equiv e w₁ w₂ hob hv₁, e.hier]
 
-/-! ### taxonomies built from label columns -/
+/-- `mapPipeline_equiv` without the (now redundant) `HasNode` argument -/
+theorem mapPipeline_equiv_wf {κ} {t₁ t₂ : RawTree} {vote : LevelLoop.Oracle κ} (e : TreeEquiv t₁ t₂)
+    (w₁ : WF t₁) (w₂ : WF t₂) (hob : OrderBlind vote)
+    (hv₁ : LevelLoop.VoteOK t₁ vote) (hv₂ : LevelLoop.VoteOK t₂ vote)
+    (cfg : LevelLoop.Config) (hdrop : cfg.dropLevel = none) (hflat : cfg.flatten = false)
+    (ids : List LevelLoop.CellId) (cells : List κ) (order : List Nat)
+    (hlen : ids.length = cells.length) (hnd : ids.Nodup)
+    (hproc : 1 ≤ cfg.nProc) (hcs : 1 ≤ cfg.chunkSize)
+    (horder : order.Perm (List.range (LevelLoop.chunks cells.length
+      (LevelLoop.effChunk cells.length cfg.nProc cfg.chunkSize)).length)) :
+    LevelLoop.mapPipeline t₁ cfg vote ids cells order =
+      LevelLoop.mapPipeline t₂ cfg vote ids cells order :=
+  mapPipeline_equiv e w₁ w₂ (hasNode_of_valid w₁.valid) hob hv₁ hv₂ cfg hdrop hflat ids cells order
+    hlen hnd hproc hcs horder
 
-/-- the taxonomy built from at least one record has a node -/
-theorem hasNode_fromRecords {cols : List Level} {recs : List (List Node)} (hc : cols.Nodup)
-    (hne : cols ≠ []) (hr : RecsOK cols recs) (hn : Nested cols recs) (hrec : recs ≠ []) :
-    HasNode (fromRecordsRaw cols recs) := by
-  have w := fromRecordsRaw_wf hc hne hr hn hrec
-  obtain ⟨r0, rs0, rfl⟩ := List.exists_cons_of_ne_nil hrec
-  have hpos : 0 < cols.length := List.length_pos_iff.2 hne
-  have hlen : r0.length = cols.length := hr r0 (by simp)
-  have h0 : cols[0]? = some cols[0] := List.getElem?_eq_getElem hpos
-  have : r0[0]'(by omega) ∈ (fromRecordsRaw cols (r0 :: rs0)).nodesAt cols[0] :=
-    (build_nodes hc hr h0 _).2 ⟨r0, by simp, List.getElem?_eq_getElem (by omega)⟩
-  exact hasNode_of_mem w (List.getElem_mem hpos) this
+/-! ### taxonomies built from label columns -/
 
 theorem split_at_idx {α} (l : List α) {i : Nat} (hi : i + 1 < l.length) :
     l = l.take i ++ l[i] :: l[i+1] :: l.drop (i+2) := by
@@ -813,30 +786,138 @@ theorem stage_eq_stage_runTree {t0 t : RawTree} {cfg : LevelLoop.Config}
       have hc' : l ∉ t0.hierarchy := by simpa using hc
       cases hf : cfg.flatten <;> simp [Markers.stage, hc']
 
-/-- a validated taxonomy that holds at least one reference cell has a node -/
-theorem hasNode_of_rows {t : RawTree} (w : WF t) (h : t.allRows ≠ []) : HasNode t := by
-  unfold allRows at h
-  cases hl : t.leafLevel with
-  | none => rw [hl] at h; exact absurd rfl h
-  | some l =>
-    rw [hl] at h
-    simp only at h
-    cases hlev : t.level l with
-    | nil => rw [hlev] at h; exact absurd rfl h
-    | cons e es =>
-      have hn : e.1 ∈ t.nodesAt l := by simp [nodesAt, hlev]
-      exact hasNode_of_mem w (List.mem_of_getLast? hl) hn
+/-! ### C10 side of C17's flatten clause: flatten = build from the leaf column
 
-/-- `hierarchy.Nodup` WAS not given by the validator either: a hierarchy that
-repeats a level name (a node that is its own child) was accepted by
-`validate_taxonomy_tree` — model and code — until `fix:` 799c7a6; it is now
-refused (`.dupLevel`; `RawTree.hierarchy_nodup_of_validate`), as it is by `wfb` -/
-def dupLevelTree : RawTree := { hierarchy := [0, 0], levels := [(0, [(10, [10])])] }
+`flatten()` of the taxonomy built from the label columns IS (equal, not only
+`TreeEquiv`) the one-level taxonomy built from the leaf column alone: the leaf
+level's dict is filled by `tree[leaf_column][leaf].append(i_row)` whatever the
+other columns are. -/
 
-theorem dupLevelTree_discrepancy :
-    dupLevelTree.validate = .error .dupLevel ∧ DictOK dupLevelTree ∧
-      ¬ dupLevelTree.hierarchy.Nodup ∧
-      LevelLoop.wfb dupLevelTree = false :=
-  ⟨by rfl, dictOK_of_b (by decide), by decide, by decide⟩
+theorem getLast?_eq_getLastD {α} {r : List α} (hne : r ≠ []) (d : α) :
+    r.getLast? = some (r.getLastD d) := by
+  rw [List.getLastD_eq_getLast?, List.getLast?_eq_some_getLast hne]
+  rfl
+
+/-- the leaf column of the accumulator only depends on the leaf labels -/
+theorem go_leaf_col {cols : List Level} (hc : cols.Nodup) {leaf : Level}
+    (hl : cols.getLast? = some leaf) :
+    ∀ (recs : List (List Node)) (acc acc' : List (Level × LevelMap)) (i : Nat),
+      acc.map (·.1) = cols → acc'.map (·.1) = [leaf] → col acc leaf = col acc' leaf →
+      RecsOK cols recs →
+      col (fromRecordsRaw.go cols acc i recs) leaf =
+        col (fromRecordsRaw.go [leaf] acc' i (recs.map (fun r => [r.getLastD 0]))) leaf
+  | [], _, _, _, _, _, h, _ => h
+  | r :: rs, acc, acc', i, hk, hk', h, hr => by
+    have hrl : r.length = cols.length := hr r (by simp)
+    have hcne : cols ≠ [] := by intro he; rw [he] at hl; cases hl
+    have hrne : r ≠ [] := by
+      intro he; rw [he] at hrl
+      exact hcne (List.eq_nil_of_length_eq_zero hrl.symm)
+    have hf := getLast?_eq_getLastD hrne 0
+    show col (fromRecordsRaw.go cols (addRecord cols acc i r) (i+1) rs) leaf =
+      col (fromRecordsRaw.go [leaf] (addRecord [leaf] acc' i [r.getLastD 0]) (i+1)
+        (rs.map (fun r => [r.getLastD 0]))) leaf
+    apply go_leaf_col hc hl rs _ _ (i+1) (by rw [addRecord_keys]; exact hk)
+      (by rw [addRecord_keys]; exact hk') ?_ (fun r' h' => hr r' (List.mem_cons_of_mem _ h'))
+    rw [addRecord_col_leaf hc hk hrl i hl hf,
+      addRecord_col_leaf (cols := [leaf]) (r := [r.getLastD 0]) (l := leaf) (leaf := r.getLastD 0)
+        (by simp) hk' rfl i rfl rfl, h]
+
+/-- an association list whose keys are `ks ++ [leaf]` (distinct), filtered to
+the keys outside `ks`, is its last binding -/
+theorem filter_not_mem_init {β} (ks : List Level) (leaf : Level) :
+    ∀ (L : List (Level × β)), L.map (·.1) = ks ++ [leaf] → (ks ++ [leaf]).Nodup →
+      ∃ v, L.filter (fun kv => !(ks.contains kv.1)) = [(leaf, v)] ∧ L.lookup leaf = some v := by
+  induction ks with
+  | nil =>
+    intro L hL _
+    match L, hL with
+    | [(k, v)], hL =>
+      simp only [List.map_cons, List.map_nil, List.nil_append, List.cons.injEq, and_true] at hL
+      subst hL
+      exact ⟨v, by simp, by simp [List.lookup]⟩
+  | cons k ks ih =>
+    intro L hL hnd
+    match L, hL with
+    | (k', v') :: L', hL =>
+      simp only [List.map_cons, List.cons_append, List.cons.injEq] at hL
+      obtain ⟨rfl, hL'⟩ := hL
+      have hnd2 : (k' :: (ks ++ [leaf])).Nodup := hnd
+      have hnd' := List.nodup_cons.mp hnd2
+      obtain ⟨v, hf, hlk⟩ := ih L' hL' hnd'.2
+      refine ⟨v, ?_, ?_⟩
+      · -- the head is dropped; on the tail the two filters agree
+        have hne : ∀ kv ∈ L', kv.1 ≠ k' := by
+          intro kv hkv he
+          exact hnd'.1 (by rw [← hL', ← he]; exact List.mem_map.2 ⟨kv, hkv, rfl⟩)
+        have : L'.filter (fun kv => !(kv.1 == k' || ks.contains kv.1)) =
+            L'.filter (fun kv => !(ks.contains kv.1)) := by
+          apply List.filter_congr
+          intro kv hkv
+          have hb : (kv.1 == k') = false := beq_false_of_ne (hne kv hkv)
+          simp [hb]
+        simp only [List.filter_cons, List.contains_cons, beq_self_eq_true, Bool.true_or,
+          Bool.not_true, Bool.false_eq_true, if_false]
+        rw [this, hf]
+      · have hne : (leaf == k') = false := by
+          apply beq_false_of_ne
+          intro he
+          exact hnd'.1 (by rw [← he]; simp)
+        simp only [List.lookup, hne]
+        exact hlk
+
+theorem eq_singleton_of_keys {β} {leaf : Level} :
+    ∀ (L : List (Level × β)), L.map (·.1) = [leaf] → ∃ v, L = [(leaf, v)]
+  | [], h => by simp at h
+  | [(k, v)], h => by
+    simp only [List.map_cons, List.map_nil, List.cons.injEq, and_true] at h
+    exact ⟨v, by rw [h]⟩
+  | _ :: _ :: _, h => by simp at h
+
+/-- **flatten = build from the leaf column** (C10 side of C17) -/
+theorem flatten_fromRecords_eq {cols : List Level} {recs : List (List Node)} (hc : cols.Nodup)
+    (hne : cols ≠ []) (hr : RecsOK cols recs) :
+    (fromRecordsRaw cols recs).flatten =
+      fromRecordsRaw [cols.getLast hne] (recs.map (fun r => [r.getLastD 0])) := by
+  have hl : cols.getLast? = some (cols.getLast hne) := List.getLast?_eq_some_getLast hne
+  have hll : (fromRecordsRaw cols recs).leafLevel = some (cols.getLast hne) := hl
+  rw [flatten_eq hll]
+  -- the two level lists
+  have hkeys := fromRecordsRaw_keys cols recs
+  have hsplit : cols = cols.dropLast ++ [cols.getLast hne] := (List.dropLast_concat_getLast hne).symm
+  obtain ⟨v, hf, hlk⟩ := filter_not_mem_init cols.dropLast (cols.getLast hne)
+    (fromRecordsRaw cols recs).levels (by rw [hkeys]; exact hsplit) (by rw [← hsplit]; exact hc)
+  have hkeys' := fromRecordsRaw_keys [cols.getLast hne] (recs.map (fun r => [r.getLastD 0]))
+  obtain ⟨v', hL'⟩ := eq_singleton_of_keys _ hkeys'
+  have hcol := go_leaf_col hc hl recs (cols.map (fun c => (c, []))) [(cols.getLast hne, [])] 0
+    (by simp [List.map_map, Function.comp_def]) rfl
+    (by
+      have hm : cols.getLast hne ∈ cols := List.getLast_mem hne
+      simp only [col, List.lookup, beq_self_eq_true, Option.getD_some]
+      rw [lookup_of_mem_nodup (m := cols.map (fun c => (c, ([] : LevelMap)))) (k := cols.getLast hne)
+        (v := []) (by simpa [List.map_map, Function.comp_def] using hc)
+        (List.mem_map.2 ⟨_, hm, rfl⟩)]
+      rfl) hr
+  have hvv : v = v' := by
+    have h1 : col (fromRecordsRaw cols recs).levels (cols.getLast hne) = v := by
+      simp [col, hlk]
+    have h2 : col (fromRecordsRaw [cols.getLast hne] (recs.map (fun r => [r.getLastD 0]))).levels
+        (cols.getLast hne) = v' := by
+      unfold col
+      rw [hL']
+      simp [List.lookup]
+    rw [← h1, ← h2]
+    exact hcol
+  show ({ fromRecordsRaw cols recs with
+      hierarchy := [cols.getLast hne]
+      levels := (fromRecordsRaw cols recs).levels.filter
+        (fun (k, _) => !((fromRecordsRaw cols recs).hierarchy.dropLast.contains k)) } : RawTree) = _
+  have hfilter : (fromRecordsRaw cols recs).levels.filter
+        (fun (k, _) => !((fromRecordsRaw cols recs).hierarchy.dropLast.contains k)) =
+      (fromRecordsRaw [cols.getLast hne] (recs.map (fun r => [r.getLastD 0]))).levels := by
+    rw [hL', ← hvv, ← hf]
+    rfl
+  rw [hfilter]
+  rfl
 
 end CTM.Bridge
